@@ -35,7 +35,7 @@ PROBES = ["chain_depth_3", "chain_depth_4", "child_export", "child_export_of_bas
           "unfiltered_export", "box_filter", "map_superset", "map_permutation", "map_crosses_chunk", "two_basins", "two_basins_shared_map",
           "internal_basin", "explicit_mapname", "basin_feats_restricted", "precedence_checked", "moved_together",
           "moved_ref_only", "abs_location_still_resolves", "origin_deleted", "origin_renamed", "origin_replaced",
-          "unavailable_confirmed", "tool_copy", "ambiguous_candidates", "asarray_twice", "dtype_first_read", "nonscalar_through_mapped",
+          "unavailable_confirmed", "tool_copy", "ambiguous_candidates", "asarray_twice", "dtype_first_read", "source_reused_after_export", "nonscalar_through_mapped",
           "available_after_move_together"]
 COMPONENTS = {
     "real": ["dclab RTDCWriter.store_basin", "dclab export.hdf5 (basins branch)", "RTDC_HDF5 / RTDC_Hierarchy readers, basins_retrieve, "
@@ -437,7 +437,7 @@ class World:
                     "box": r.random() < 0.25, "dir": r.choice([-1, -1, -1, 0, 1, 2]), "p": r.choice([0.3, 0.6, 0.9])}
         if x < 0.55:
             two = r.choice(["none", "none", "none", "same_target", "same_target_shared_map", "other_target"])
-            return {"k": "store", "tgt": i, "tgt2": r.choice(us), "mapkind": r.choice(["same", "subset", "subset", "superset", "perm", "long"]),
+            return {"k": "store", "tgt": i, "tgt2": r.choice(us), "mapkind": r.choice(["same", "subset", "subset", "superset", "perm", "long", "ends_fixed", "ends_fixed"]),
                     "mseed": r.randrange(1 << 30), "own": r.choice([0, 1, 1, 2, 3]), "restrict": r.random() < 0.4,
                     "explicit": r.choice([None, None, None, 0, 3, 9]), "locs": r.choice(["abs", "rel", "both", "both"]),
                     "dir": r.choice([-1, -1, -1, 0, 1, 2]), "internal": r.random() < 0.25, "two": two}
@@ -558,6 +558,14 @@ class World:
                 state["sel"] = sel
                 state["masks"] = seeds.short_hash(sel)
                 cur.export.hdf5(P.path, features=feats, filtered=filtered, basins=True)
+                # the exported dataset object stays in use: exporting must not change what it delivers
+                reuse = {}
+                for f in SCAL:
+                    try:
+                        reuse[f] = np.array(np.asarray(ds[f][:]))
+                    except KeyError:
+                        reuse[f] = None
+                state["reuse"] = reuse
             finally:
                 for c in chain[::-1]:
                     try:
@@ -581,6 +589,19 @@ class World:
                 P.path.unlink()
             ctx.log("w", "export failed")
             return
+        # the source object after the export (same open dataset): every feature it must deliver is still delivered
+        for f, got in sorted((state.get("reuse") or {}).items()):
+            must = self.cands(S, f, must=True)
+            may = self.cands(S, f, must=False)
+            ctx.checked()
+            if got is None:
+                if must:
+                    self.report("C07.source_after_export", f"{S.name}: after exporting from it, the still open dataset no longer offers "
+                                                           f"feature {f}", dict(facts, feat="scalar", what="lost"))
+            elif may and not any(equal("pos_x", got, values(f, c)) for c in may):
+                self.report("C07.source_after_export", f"{S.name}: after exporting from it, feature {f} of the still open dataset differs "
+                                                       f"from the origin data at the mapped events", dict(facts, feat="scalar", what="changed"))
+            ctx.probe("source_reused_after_export")
         mapped = filtered or depth > 0
         P.n = len(sel)
         P.rid = self.read_rid(P.path)
@@ -643,6 +664,21 @@ class World:
             return m.astype(np.uint64)
         if kind == "perm":
             return rs.permutation(n_t).astype(np.uint64)
+        if kind == "ends_fixed":
+            # as many entries as the span from the smallest (first) to the largest (last) index, but not
+            # increasing: a shuffled middle, or repeats balanced by gaps - looks like a contiguous block
+            if n_t < 4:
+                return rs.permutation(n_t).astype(np.uint64)
+            lo = int(rs.integers(0, max(1, n_t // 3)))
+            hi = int(rs.integers(lo + 3, n_t))
+            mid = np.arange(lo + 1, hi)
+            if rs.random() < 0.5:
+                mid = rs.permutation(mid)
+                if np.all(np.diff(mid) > 0):
+                    mid = mid[::-1]
+            else:
+                mid = np.sort(rs.choice(np.arange(lo, hi + 1), size=len(mid), replace=True))
+            return np.concatenate([[lo], mid, [hi]]).astype(np.uint64)
         # long: longer than one chunk of the map feature whenever the chunk knob allows
         k = int(min(MAX_EVENTS, max(self.scalar_chunk + 1 + int(rs.integers(0, 12)), n_t // 2 + 1)))
         return rs.integers(0, n_t, size=k).astype(np.uint64)
